@@ -56,13 +56,18 @@ func (sa SessionBasedAuthorizer) Handle(response tq.Response, request tq.Request
 		case tq.AuthorStatusPassRepl:
 			stringyHandleAuthorizeAcceptPassReplace.Inc()
 		}
-		response.Reply(
+		_, err := response.Reply(
 			tq.NewAuthorReply(
 				tq.SetAuthorReplyStatus(status),
 				tq.SetAuthorReplyArgs(args...),
 			),
 		)
-		return
+		if err == nil {
+			return
+		}
+		// configured values that cannot be put on the wire (non-ascii, shorter than 2 or longer than
+		// 255 bytes, more than 255 of them) must not leave the client without an answer: fail closed
+		sa.Errorf(request.Context, "unable to send the configured arguments to user [%v], answering with a failure instead; %v", sa.user.Name, err)
 	}
 	sa.Debugf(request.Context, "user [%v] failed session based authorization", sa.user.Name)
 	stringyHandleAuthorizeFail.Inc()
